@@ -110,6 +110,7 @@ fn probe_contexts() -> (Ctx, Ctx) {
     m.funs.insert("nest".into(), FnModel::Nested);
     // a function named like the variable `a` that passes on the unknown-function error of something it evaluated
     m.funs.insert("a".into(), FnModel::FailNotFound("typeof"));
+    m.funs.insert("deep".into(), FnModel::Deep);
     let c1 = api::ctx_from_model(&m, &log);
     let mut m2 = Model::new();
     m2.builtins_off = true;
@@ -400,6 +401,43 @@ impl Phase for ErrorDisplay {
                 E::IllegalEscapeSequence(format!("{}", v)),
                 E::invalid_regex(format!("{}", v), format!("{:?}", v)),
             ];
+            let mut errs = errs;
+            // the same constructors with degenerate arguments (no types at all, one type, three; empty and reversed
+            // ranges; zero lengths): whatever a user function may hand back
+            {
+                use evalexpr::Operator as O;
+                let tys = [ValueType::Int, ValueType::Float, ValueType::String, ValueType::Tuple, ValueType::Empty, ValueType::Boolean];
+                let ops: Vec<O> = vec![
+                    O::Add, O::Sub, O::Neg, O::Not, O::Mul, O::Exp, O::Eq, O::And, O::Assign, O::AddAssign, O::AndAssign, O::Tuple, O::Chain, O::RootNode,
+                    O::Const { value: v.clone() },
+                    O::VariableIdentifierRead { identifier: format!("{}", v) },
+                    O::VariableIdentifierWrite { identifier: "w".into() },
+                    O::FunctionIdentifier { identifier: "f".into() },
+                ];
+                for (k, op) in ops.into_iter().enumerate() {
+                    for len in 0..=3usize {
+                        errs.push(E::wrong_type_combination(op.clone(), (0..len).map(|i| tys[(i + k) % tys.len()]).collect()));
+                    }
+                }
+                for len in 0..=3usize {
+                    errs.push(E::type_error(v.clone(), tys[..len].to_vec()));
+                }
+                errs.push(E::expected_fixed_len_tuple(0, v.clone()));
+                errs.push(E::expected_fixed_len_tuple(usize::MAX, v.clone()));
+                errs.push(E::expected_ranged_len_tuple(0..=0, v.clone()));
+                #[allow(clippy::reversed_empty_ranges)]
+                errs.push(E::expected_ranged_len_tuple(5..=2, v.clone()));
+                errs.push(E::expected_ranged_len_tuple(0..=usize::MAX, v.clone()));
+                errs.push(E::wrong_operator_argument_amount(0, 0));
+                errs.push(E::wrong_operator_argument_amount(usize::MAX, usize::MAX));
+                #[allow(clippy::reversed_empty_ranges)]
+                errs.push(E::wrong_function_argument_amount_range(0, 3..=1));
+                errs.push(E::wrong_function_argument_amount_range(usize::MAX, 0..=usize::MAX));
+                errs.push(E::VariableIdentifierNotFound(String::new()));
+                errs.push(E::FunctionIdentifierNotFound(String::new()));
+                errs.push(E::CustomMessage(String::new()));
+                errs.push(E::IllegalEscapeSequence(String::new()));
+            }
             for e in &errs {
                 n += format!("{}", e).len() + format!("{:?}", e).len();
                 let _ = e.clone() == *e;
@@ -501,7 +539,14 @@ pub fn phases(cfg: &Cfg) -> Vec<Box<dyn Phase>> {
     let t = cfg.thorough;
     let dev = std::env::var("EVX_PROFILE").map(|p| p == "dev").unwrap_or(false);
     let c03 = super::c03::phases(cfg);
-    let c10 = super::c10::phases(cfg);
+    // every name the working tree's builtin table matches on (the driver extracts them), known to the reference or not
+    let extra: Vec<&'static str> = std::env::var("EVX_EXTRA_FN_NAMES")
+        .unwrap_or_default()
+        .split(',')
+        .filter(|s| !s.is_empty())
+        .map(|s| &*Box::leak(s.to_string().into_boxed_str()))
+        .collect();
+    let c10 = super::c10::phases_with(cfg, &extra);
     let mut v: Vec<Box<dyn Phase>> = Vec::new();
     v.push(Box::new(DepthStress {
         patterns: nest_patterns(),
